@@ -20,7 +20,7 @@ Definition cred_mechs (k : cred_kind) : list str :=
 (* ---- which children of the features element advertise a mechanism ----
    stanza.saslMechanisms: the <mechanism/> children of
    <mechanisms xmlns="urn:ietf:params:xml:ns:xmpp-sasl"/> THAT ARE THEMSELVES IN THE
-   SASL NAMESPACE, in document order, each by its character data.  A child in
+   SASL NAMESPACE, in document order, each by its character data (trimmed, see below).  A child in
    another namespace (an extension element that happens to be called "mechanism")
    advertises nothing. *)
 Definition s_ns_sasl : str :=   (* urn:ietf:params:xml:ns:xmpp-sasl *)
@@ -32,8 +32,19 @@ Definition s_mechanism : str := [109; 101; 99; 104; 97; 110; 105; 115; 109].   (
 Definition fchild := (str * str * str)%type.
 Definition is_sasl_mech (c : fchild) : bool :=
   let '(ns, local, _) := c in str_eqb ns s_ns_sasl && str_eqb local s_mechanism.
+(* The name a <mechanism/> element advertises is its character data WITHOUT the XML white space
+   (space, tab, CR, LF) around it: the element is an xs:NMTOKEN (RFC 6120, appendix A.4), so a
+   server that writes its features indented advertises the same names (isSupportedMech trims
+   before it compares). *)
+Definition is_xml_ws (c : N) : bool := (c =? 32) || (c =? 9) || (c =? 13) || (c =? 10).
+Fixpoint trim_left (l : str) : str :=
+  match l with
+  | c :: r => if is_xml_ws c then trim_left r else l
+  | [] => []
+  end.
+Definition trim (l : str) : str := rev (trim_left (rev (trim_left l))).
 Definition advertised (children : list fchild) : list str :=
-  map (fun c : fchild => snd c) (filter is_sasl_mech children).
+  map (fun c : fchild => trim (snd c)) (filter is_sasl_mech children).
 
 (* One level up: the children of <stream:features/> themselves, each with its own element
    children: (namespace, local name, children).  stanza.StreamFeatures decodes the field
